@@ -18,6 +18,7 @@ import GdcVerif.Lemmas.T1Termall
 import GdcVerif.Lemmas.T1LayeredLock
 import GdcVerif.Lemmas.T1Side
 import GdcVerif.Lemmas.T1Trunc
+import GdcVerif.Lemmas.T1LazyFinal
 /-!
   C20 — JPEG 2000 building blocks are exact inverses: RCT, 5/3 DWT, MQ coder, EBCOT T1.
 
@@ -30,10 +31,10 @@ import GdcVerif.Lemmas.T1Trunc
   * T1: facts about the regenerated tables and pass predicates; the code-shaped model `Model/T1.lean` of
     `Encode` / `DecodeWithBitplane` for the code-block styles without LAZY (tied by `t1-enc` / `t1-dec`
     correspondence): every context label is in range, neither direction can index-panic (encoder: 28 of the 32
-    styles, TERMALL included), and the block round trip is proved for style 0 (`t1_roundtrip`) and for every
-    RESET / VSC / SEGSYM combination (`t1_roundtrip_styles`).  PTERM, TERMALL and LAZY round trips are searched;
-    the layered API (`EncodeLayered` / `DecodeLayeredWithMode`, all 64 styles) is modelled in `Model/T1Layered.lean`
-    and tied by `t1-lenc` / `t1-ldec` correspondence.
+    styles, TERMALL included), and the block round trip is proved for style 0 (`t1_roundtrip`), every
+    RESET / VSC / SEGSYM combination (`t1_roundtrip_styles`) and with PTERM (`t1_roundtrip_pterm`).  The layered API
+    (`EncodeLayered` / `DecodeLayeredWithMode`, `Model/T1Layered.lean`, tied by `t1-lenc` / `t1-ldec` correspondence)
+    round-trips for ALL 64 styles with the reported pass lengths (`t1_layered_roundtrip`).
 -/
 namespace C20
 open Gen.J2kColor
@@ -350,25 +351,30 @@ example : Go.and ((42 : Nat) : Int) CblkStyleTermAll = 0 ∧ Go.and ((42 : Nat) 
 
 /-! ## EBCOT T1: the layered API (`EncodeLayered` / `DecodeLayeredWithMode`, `Model/T1Layered.lean`) -/
 
-/-- **layered T1 round trip, every style without LAZY** (32 of the 64 styles: TERMALL, RESET, VSC, PTERM, SEGSYM in any
-combination): `DecodeLayeredWithMode`, given the bytes and the cumulative pass lengths that `EncodeLayered` reports
-(after `normalizePassRates`), returns the coefficients.  Under TERMALL every pass is its own MQ codeword segment,
-terminated by `FlushToOutput` or (PTERM) `ErtermEnc`: the bytes in front of a segment are never touched again
-(`Mqc.InSeg`), the decoder of a segment is in lock-step with the restarted encoder (`Mqc.decInit_rel`,
-`Mqc.decode_shift`), contexts are carried or reset on both sides, empty segments are allowed.  Without PTERM the
-stream is never empty; under PTERM the theorem does not exclude an empty stream, which the decoder rejects
-(`empty code-block data`) — `ErtermEnc` can end without a byte (witness at the MQ level in the registry notes) -/
-theorem t1_layered_roundtrip_mq (w h orient style mb : Nat) (coeffs : List Int) (hlen : coeffs.length = w * h)
+/-- **layered T1 round trip, ALL 64 code-block styles** (LAZY, RESET, TERMALL, VSC, PTERM, SEGSYM in any
+combination; `style < 64`): `DecodeLayeredWithMode`, given the bytes and the cumulative pass lengths that
+`EncodeLayered` reports (after `normalizePassRates`), returns the coefficients — the full T1 clause of C20.
+MQ codeword segments: terminated by `FlushToOutput` or (PTERM) `ErtermEnc`; the bytes in front of a segment are
+never touched again (`Mqc.InSeg`), the decoder of a segment is in lock-step with the restarted encoder
+(`Mqc.decInit_rel`, `Mqc.decode_shift`), contexts are carried or reset on both sides, empty segments are allowed.
+Raw segments (LAZY, significance and refinement passes below plane `mb - 3`): the bit writer `BypassEncode` /
+`BypassFlushEnc` and the reader `RawDecode` are in lock-step bit by bit (`Mqc.raw_step`: 7-bit byte after 0xFF,
+0/1 padding, a dropped trailing 0xFF or 0xFF 0x7F read back from the 0xFF 0xFF sentinel).  Segment boundaries come
+from the reported lengths: `normalizePassRates` keeps the length of every terminated pass (`T1.normalize_anchor`)
+although the estimates of the other passes are clipped.  Without PTERM the stream is never empty; under PTERM an
+empty stream, which the decoder rejects (`empty code-block data`), is not excluded — `ErtermEnc` can end without a
+byte (witness at the MQ level in the registry notes) -/
+theorem t1_layered_roundtrip (w h orient style mb : Nat) (coeffs : List Int) (hlen : coeffs.length = w * h)
     (hbnd : ∀ c ∈ coeffs, -2147483648 < c ∧ c < 2147483648)
-    (hmb : T1.findMaxBitplane (T1.padBlock w h coeffs) = some mb) (hs : style ∈ T1.stylesMq) :
+    (hmb : T1.findMaxBitplane (T1.padBlock w h coeffs) = some mb) (hs : style < 64) :
     ∃ rates bytes, T1.encodeLayered w h orient style coeffs (3 * (mb + 1) - 2) = .ok (rates, (mb : Int), bytes) ∧
       (T1.styPterm style = false → bytes ≠ []) ∧
       (bytes ≠ [] → T1.decodeLayered w h orient style (mb : Int) rates bytes = .ok coeffs) := by
   rw [show 3 * (mb + 1) - 2 = 3 * mb + 1 by omega]
-  exact T1.t1_layered_roundtrip_mq w h orient style mb coeffs hlen (fun c hc => by have := hbnd c hc; omega) hmb hs
+  exact T1.t1_layered_roundtrip_all w h orient style mb coeffs hlen (fun c hc => by have := hbnd c hc; omega) hmb hs
 
-/-- non-vacuity: TERMALL|RESET|PTERM|SEGSYM is one of the styles -/
-example : 54 ∈ T1.stylesMq := by decide
+/-- non-vacuity: LAZY|RESET|TERMALL|PTERM|SEGSYM = 55, a block whose top plane 5 leaves raw passes on planes 1, 0 -/
+example : (55 : Nat) < 64 ∧ T1.findMaxBitplane (T1.padBlock 2 1 [-45, 19]) = some 5 := by decide
 
 /-- **`Encode` / `DecodeWithBitplane` round trip with PTERM** (styles without LAZY and TERMALL; extends
 `t1_roundtrip_styles` by `ErtermEnc` as the final termination, with the same caveat about an empty stream) -/
